@@ -1676,3 +1676,51 @@ func ruleC08_7(c *Ctx, r *Rep) {
 	}
 	r.OK("C08.7", "C08.7:filter-package-bounds-proved", token.NoPos, fmt.Sprintf("compiler prove pass: %d kept bounds checks in package filter's own sources (%d in library code instantiated there, not counted)", n, other))
 }
+
+// ---------------------------------------------------------------------------
+// C12.2 (classifier): isSqlDuplicateKeyError says yes exactly for PostgreSQL's unique_violation (SQLSTATE 23505 of a
+// *pgconn.PgError found with errors.As) and for what the SQLite sibling recognises. Another code (23503 is the
+// foreign-key violation) turns the loser of a create race into Unknown and, worse, a missing parent into "exists".
+func ruleC12_2classifier(c *Ctx, r *Rep) {
+	fn := r.Anchor("C12.2", "actions.isSqlDuplicateKeyError")
+	if fn == nil {
+		return
+	}
+	pg, lite := false, false
+	for _, ret := range returnsOf(fn) {
+		cst, isC := retResult(ret, 0).(*ssa.Const)
+		if !isC || cst.Value == nil {
+			r.Undecided("C12.2", "C12.2:classifier-computed@"+c.Key(fn), ret.Pos(), "the classifier returns a computed value: the rule attributes constant verdicts to paths")
+			continue
+		}
+		if cst.Value.String() != "true" {
+			continue
+		}
+		conds := edgeConds(ret.Block())
+		isPg := condHas(conds, true, func(v ssa.Value) bool {
+			bo, ok := v.(*ssa.BinOp)
+			if !ok || bo.Op != token.EQL {
+				return false
+			}
+			s, isS := constString(bo.Y)
+			if !isS {
+				s, isS = constString(bo.X)
+			}
+			return isS && s == "23505" && (sources(bo.X)["field:Code"] || sources(bo.Y)["field:Code"])
+		}) && condHas(conds, true, func(v ssa.Value) bool {
+			call, ok := strip(v).(*ssa.Call)
+			if !ok || call.Call.StaticCallee() == nil || call.Call.StaticCallee().Name() != "As" || len(call.Call.Args) != 2 {
+				return false
+			}
+			return strings.Contains(strip(call.Call.Args[1]).Type().String(), "pgconn.PgError")
+		})
+		isLite := condHas(conds, true, func(v ssa.Value) bool {
+			call, ok := strip(v).(*ssa.Call)
+			return ok && call.Call.StaticCallee() != nil && call.Call.StaticCallee().Name() == "isSqliteDuplicateKeyError"
+		})
+		pg, lite = pg || isPg, lite || isLite
+		r.Check("C12.2", "C12.2:classifier-yes-only-for-unique-violation@"+c.Key(fn), ret.Pos(), isPg || isLite, "", "the classifier answers yes on a path that is neither SQLSTATE 23505 of a *pgconn.PgError nor the SQLite sibling's verdict: other storage errors are reported as AlreadyExists")
+	}
+	r.Check("C12.2", "C12.2:classifier-postgres@"+c.Key(fn), fn.Pos(), pg, "errors.As(*pgconn.PgError) ∧ Code == \"23505\" → true", "PostgreSQL's unique_violation (SQLSTATE 23505) is not recognised as a duplicate key: the loser of a create race gets Unknown instead of AlreadyExists")
+	r.Check("C12.2", "C12.2:classifier-sqlite@"+c.Key(fn), fn.Pos(), lite, "", "the SQLite sibling's verdict is not consulted")
+}
